@@ -9,6 +9,7 @@ import Vipnode.Drv.Server
 import Vipnode.Drv.Codec
 import Vipnode.Drv.Uri
 import Vipnode.Drv.Agent
+import Vipnode.Drv.Rpc
 open Vipnode Vipnode.Drv
 
 structure DState where
@@ -17,6 +18,7 @@ structure DState where
   srv : AList Method := []
   agent : AgentDrv := {}
   life : Life := {}
+  rpc : Rpc := {}
 
 def stepLine (st : DState) (line : String) : DState × String :=
   let toks := (line.trimAscii.toString.splitOn " ").filter (· ≠ "")
@@ -31,6 +33,7 @@ def stepLine (st : DState) (line : String) : DState × String :=
   | "codec" :: args => (st, codecStep args)
   | "uri" :: args => (st, uriStep args)
   | "agent" :: args => let (s, o) := agentStep st.agent args; ({ st with agent := s }, o)
+  | "rpc" :: args => let (s, o) := rpcStep st.rpc args; ({ st with rpc := s }, o)
   | "agentlife" :: args => let (s, o) := lifeDrvStep st.life args; ({ st with life := s }, o)
   | ["noop"] => (st, "noop")
   | [] => (st, "")
